@@ -65,6 +65,15 @@ CLAIMED['C04'] = (
     TRUST + '; A2 exact ring back-end; mask arithmetic of the same functions is decided under C09/C14/C08 (the accumulator masks stay zero here)',
     'bounded symbolic execution (clang IR -> C -> CBMC) + SAT portfolio', 'DESIGN.md section 4, C04')
 
+CLAIMED['C09'] = (
+    'Decided modularly in ciphertext coordinates on the real code: gadget rows (m*Bg^-(q+1) on the block diagonal, rest unchanged) for five '
+    'routines; the three external products with every TGSW row an arbitrary symbolic TLWE sample and the decomposition replaced by free digits: '
+    'out.a[i] = sum_p digit_p (*) row_p.a[i]; the CMux step result = ACC + ExtProd(bk_i,(X^a-1)ACC) with a symbolic over [1,2N); the rotation '
+    'loop for every exponent vector in [0,2N)^n (one step per non-zero exponent, in order, alternating buffers, final copy-back for both '
+    'parities); FFT image of TGSW samples and of the whole bootstrapping key incl. the key-switching copy; gadget linearity lemma.',
+    TRUST + '; A2 exact ring back-end; callees replaced by recorders in the modular queries; the phase statement m*phase(c)+err is the composition with C12/C14 (paper algebra)',
+    'bounded symbolic execution (clang IR -> C -> CBMC) + SAT/SMT portfolio', 'DESIGN.md section 4, C09')
+
 NOT_APPLICABLE = {
     'C02': 'statistical claim (mean/stdev/tail of the phase error of the real FFT pipeline at N=1024): a solver decides for-all/exists and the for-all version is false; its deterministic mechanisms are decided under C12, C08, C07, C19, C01',
     'C10': 'double-precision rounding error of 2048-point FFTs, three of five back-ends being hand-written AVX/FMA assembly or FFTW: bit-precise FP is out of solver reach beyond N~2 and a sound real-arithmetic over-approximation exceeds the stated 2 units',
